@@ -36,6 +36,24 @@ PROGRAMS = [
       "reporter_start_test", "reporter_start_suite",
       "add_reporter_result", "send_reporter_exception_notification",
       "send_reporter_skipped_notification", "send_reporter_completion_notification"]),
+    # the expectation queue of the mock engine
+    ("mocks", "src/mocks.c",
+     ["find_expectation", "remove_expectation_for", "have_always_expectation_for",
+      "have_never_call_expectation_for", "remove_never_call_expectation_for",
+      "is_always_call", "is_never_call", "is_first_call_matching", "destroy_expectation_if_time_to_die",
+      "successfully_mocked_call", "trigger_unfulfilled_expectations"]),
+    # cgreen-runner's selection of tests
+    ("tool", "tools/runner.c", ["test_matches_pattern", "context_name_of", "test_name_of"]),
+    # percent signs in failure messages
+    ("percent", "src/message_formatting.c",
+     ["next_percent_sign", "count_percent_signs", "copy_while_doubling_percent_signs", "double_all_percent_signs_in"]),
+    # the tokenizer of mock() argument lists
+    ("params", "src/parameters.c",
+     ["stringdup", "create_vector_of_names", "remove_whitespace_around_parentheses", "tokenise_by_commas_and_whitespace",
+      "skip_nulls_until", "end_of_token", "last_char_of", "begins_with", "move_parameter_to_beginning_of",
+      "strip_function_from"]),
+    # attribute escaping of the xml reporter
+    ("xmlesc", "src/xml_reporter.c", ["concat", "concat_escaped", "escaped"]),
 ]
 
 
@@ -56,8 +74,13 @@ def node_type(n):
     return t.get("desugaredQualType") or t.get("qualType") or ""
 
 
+ENUM_TYPEDEFS = set()
+
+
 def node_ity(n):
     t = n.get("type") or {}
+    if (t.get("qualType") or "").replace("const ", "").strip() in ENUM_TYPEDEFS:
+        return "U32"
     for k in ("qualType", "desugaredQualType"):
         if k in t:
             r = ity_of(t[k])
@@ -118,6 +141,9 @@ class Fn:
 
     def __init__(self, tu, name):
         self.tu, self.name = tu, name
+        for k, v in (tu.get("typedefs") or {}).items():
+            if v.startswith("enum ") or v.startswith("enum{") or v.startswith("enum ("):
+                ENUM_TYPEDEFS.add(k)
         self.fn = tu["funs"][name]
         self.locals = set()
         self.struct_locals = set()
@@ -182,6 +208,8 @@ class Fn:
                 return "(EGlob %s)" % coq_string(base["referencedDecl"]["name"] + "." + path)
             if base.get("kind") == "UnaryOperator" and base.get("opcode") == "*":
                 return "(EField %s %s)" % (self.expr(base["inner"][0]), coq_string(path))
+            if base.get("kind") == "ArraySubscriptExpr":
+                return "(EField %s %s)" % (self.expr(base), coq_string(path))
             raise Cannot("member of a " + str(base.get("kind")))
         if k == "ImplicitCastExpr" or k == "CStyleCastExpr":
             ck = e.get("castKind")
@@ -248,6 +276,10 @@ class Fn:
             a, b = e["inner"]
             ops = {"+": "OAdd", "-": "OSub", "*": "OMul", "/": "ODiv", "%": "OMod", "==": "OEq", "!=": "ONe",
                    "<": "OLt", "<=": "OLe", ">": "OGt", ">=": "OGe", "&&": "OAnd", "||": "OOr"}
+            if op == "&":
+                sp = self.ctype_test(a, b)
+                if sp:
+                    return sp
             if op not in ops:
                 raise Cannot("operator %s inside an expression" % op)
             x = "(EBin %s %s %s)" % (ops[op], self.expr(a), self.expr(b))
@@ -264,6 +296,9 @@ class Fn:
             t = node_ity(e)
             if t in ("I8", "U8"):
                 return "(ELoad %s (EBin OAdd %s %s))" % (t, self.expr(e["inner"][0]), self.expr(e["inner"][1]))
+            q = node_type(e)
+            if q.endswith("*") or q.startswith("struct ") or q.startswith("union ") or "struct " in q:
+                return "(EIndex %s %s)" % (self.expr(e["inner"][0]), self.expr(e["inner"][1]))
             raise Cannot("subscript of an array of " + node_type(e))
         if k == "CallExpr":
             callee = self.unparen(e["inner"][0])
@@ -293,6 +328,29 @@ class Fn:
                 return "(EConst %d)" % {"I8": 1, "U8": 1, "IBool": 1, "I32": 4, "U32": 4, "I64": 8, "U64": 8}[ity_of(node_type(e["inner"][0]))]
             raise Cannot("sizeof " + at)
         raise Cannot("expression kind " + str(k))
+
+    def ctype_test(self, a, b):
+        """glibc's isspace(c) and friends are macros: ((*__ctype_b_loc())[(int)(c)] & (unsigned short)_ISxxx)"""
+        masks = {8192: "isspace", 2048: "isdigit", 1024: "isalpha", 8: "isalnum", 256: "isupper", 512: "islower"}
+        a2 = self.unparen(a)
+        while a2.get("kind") in ("ImplicitCastExpr", "CStyleCastExpr"):
+            a2 = self.unparen(a2["inner"][0])
+        if a2.get("kind") != "ArraySubscriptExpr":
+            return None
+        base = json.dumps(a2["inner"][0])
+        if "__ctype_b_loc" not in base:
+            return None
+        b2 = self.unparen(b)
+        while b2.get("kind") in ("ImplicitCastExpr", "CStyleCastExpr", "ConstantExpr"):
+            b2 = self.unparen(b2["inner"][0])
+        m = None
+        if b2.get("kind") == "DeclRefExpr":
+            m = self.tu["enums"].get(b2["referencedDecl"].get("name"))
+        elif b2.get("kind") == "IntegerLiteral":
+            m = int(b2["value"])
+        if m not in masks:
+            raise Cannot("ctype class mask %s" % m)
+        return "(ECall %s [%s])" % (coq_string(masks[m]), self.expr(a2["inner"][1]))
 
     def label_of(self, callee):
         if callee.get("kind") == "MemberExpr":
@@ -328,6 +386,8 @@ class Fn:
             t = node_ity(e)
             if t in ("I8", "U8"):
                 return "(LStore %s (EBin OAdd %s %s))" % (t, self.expr(e["inner"][0]), self.expr(e["inner"][1]))
+            if node_type(e).endswith("*"):
+                return "(LIndex %s %s)" % (self.expr(e["inner"][0]), self.expr(e["inner"][1]))
             raise Cannot("store into an array of " + node_type(e))
         raise Cannot("assignment to a " + str(k))
 
@@ -434,6 +494,14 @@ class Fn:
         self.pending_post = saved
         return "(SLoop %s %s %s)" % (c, body, incr)
 
+    def has_continue(self, n):
+        k = n.get("kind")
+        if k == "ContinueStmt":
+            return True
+        if k in ("WhileStmt", "ForStmt", "DoStmt"):
+            return False
+        return any(self.has_continue(c) for c in n.get("inner", []) if isinstance(c, dict))
+
     def has_break(self, n, depth=0):
         """a `break` that would refer to the enclosing switch (not inside a nested loop/switch)"""
         k = n.get("kind")
@@ -529,7 +597,7 @@ class Fn:
                 nm = d["name"]
                 self.locals.add(nm)
                 q = node_type(d)
-                m = re.match(r"^(?:const )?(?:unsigned )?char \[(\d+)\]$", q)
+                m = re.match(r"^(?:const )?(?:unsigned )?char ?\[(\d+)\]$", q)
                 if m:
                     out.append("(SAssign (LVar %s) (ECall \"stack_array\" [EConst %s]))" % (coq_string(nm), m.group(1)))
                     continue
@@ -549,8 +617,10 @@ class Fn:
         if k == "IfStmt":
             parts = s["inner"]
             c = parts[0]
-            if self.find_assign_in_cond(c):
-                raise Cannot("assignment in an if condition")
+            pre = None
+            fa = self.find_assign_in_cond(c)
+            if fa:
+                pre, c = self.assignment(fa[0]), fa[1]
             a = self.stmt(parts[1])
             b = self.stmt(parts[2]) if len(parts) > 2 else "SSkip"
             saved, self.pending_post = self.pending_post, []
@@ -558,6 +628,8 @@ class Fn:
             if self.pending_post:
                 raise Cannot("post-increment in an if condition")
             self.pending_post = saved
+            if pre:
+                return "(SSeq %s (SIf %s %s %s))" % (pre, ce, a, b)
             return "(SIf %s %s %s)" % (ce, a, b)
         if k == "WhileStmt":
             return self.loop(s["inner"][0], self.stmt(s["inner"][-1]), "SSkip")
@@ -585,7 +657,14 @@ class Fn:
             return "SContinue"
         if k == "SwitchStmt":
             return self.switch(s)
-        if k in ("DoStmt", "GotoStmt", "LabelStmt"):
+        if k == "DoStmt":
+            body, cond = s["inner"][0], s["inner"][1]
+            if self.has_continue(body):
+                raise Cannot("continue inside do-while")
+            if self.find_assign_in_cond(cond):
+                raise Cannot("assignment in a do-while condition")
+            return "(SLoop (EConst 1) (SSeq %s (SIf %s SSkip SBreak)) SSkip)" % (self.stmt(body), self.expr(cond))
+        if k in ("GotoStmt", "LabelStmt"):
             raise Cannot("statement kind " + k)
         # expression statement
         return self.expr_stmt(s)
@@ -613,9 +692,11 @@ def generate(repo, gen_dir, pinned_dir, bdir=None):
     os.makedirs(gen_dir, exist_ok=True)
     pinned_path = os.path.join(pinned_dir, "code.json")
     pinned = json.load(open(pinned_path)) if os.path.exists(pinned_path) else {}
-    out, status, current = [HEADER], {}, {}
+    status, current = {}, {}
     tus = {}
+    files = {}
     for prog, rel, fns in PROGRAMS:
+        out = [HEADER]
         names = []
         for f in fns:
             key = "code_" + f
@@ -638,10 +719,14 @@ def generate(repo, gen_dir, pinned_dir, bdir=None):
             names.append(key)
         out.append("Definition prog_%s : list (string * fundef) :=\n  [%s].\n\n" % (
             prog, ";\n   ".join("(%s, %s)" % (coq_string(n[5:]), n) for n in names)))
-    new = "".join(out)
-    path = os.path.join(gen_dir, "Code.v")
-    if not os.path.exists(path) or open(path).read() != new:
-        open(path, "w").write(new)
+        files["Code_%s.v" % prog] = "".join(out)
+    # one file per program (a proof about one program is not re-checked when another program changes)
+    files["Code.v"] = "(* GENERATED by tools/srccode.py - all translated programs *)\n" + "".join(
+        "From CgreenVerif.Gen Require Export Code_%s.\n" % prog for prog, _, _ in PROGRAMS)
+    for fn, new in files.items():
+        path = os.path.join(gen_dir, fn)
+        if not os.path.exists(path) or open(path).read() != new:
+            open(path, "w").write(new)
     if os.environ.get("VERIF_PIN") == "1":
         os.makedirs(pinned_dir, exist_ok=True)
         json.dump(current, open(pinned_path, "w"), indent=1, sort_keys=True)
